@@ -1,9 +1,10 @@
 //! slicec-bounded <check>   -- prints one JSON object per counterexample (at most 5) and a summary.
-//! checks: plugin (C19)  preproc (C06)  decode (C11)  totals (C07)  visitor (C20)  fileset (C17)  lexical (C01)  snippet (C09)
+//! checks: plugin (C19)  preproc (C06)  decode (C11)  totals (C07)  visitor (C20)  fileset (C17)  lexical (C01)  snippet (C09)  lints (C13)
 use std::collections::{BTreeMap, HashMap, HashSet};
 
 mod oracle_fileset;
 mod oracle_lexical;
+mod oracle_lints;
 mod oracle_plugin;
 mod oracle_preproc;
 mod oracle_snippet;
@@ -64,7 +65,7 @@ impl Report {
             *n <= 2 && self.panic_sites.len() <= 40
         } else {
             self.other += 1;
-            self.other <= 5
+            self.other <= 40
         };
         if print {
             println!("{{\"counterexample\":{{\"check\":{},\"input\":{},\"expected\":{},\"got\":{}}}}}", js(self.check), js(input), js(expected), js(&got));
@@ -95,9 +96,10 @@ fn main() {
         "fileset" => oracle_fileset::run(),
         "lexical" => oracle_lexical::run(),
         "snippet" => oracle_snippet::run(),
+        "lints" => oracle_lints::run(),
         "one" => oracle_lexical::one(&std::env::args().nth(2).unwrap_or_default()),
         _ => {
-            eprintln!("usage: slicec-bounded plugin|preproc|decode|totals|visitor|fileset|lexical|snippet");
+            eprintln!("usage: slicec-bounded plugin|preproc|decode|totals|visitor|fileset|lexical|snippet|lints");
             2
         }
     };
